@@ -114,6 +114,10 @@ func DeBlobProgramCode(data []byte) (_ Program, _ ExitReason) {
 		return Program{}, ExitPanic
 	}
 
+	if instSize > uint64(len(data)) {
+		pvmLogger.Errorf("instruction size %d exceeds the remaining %d bytes", instSize, len(data))
+		return Program{}, ExitPanic
+	}
 	instructions := data[:instSize]
 	bitmaskData := data[instSize:]
 	bitmask, exitReason := MakeBitMasks(instructions, bitmaskData)
